@@ -37,6 +37,7 @@ type c10Params struct {
 	instants []int
 	tcp      bool
 	discFail bool // the socket write of the disconnect request fails (transient error); everything else works
+	everyCh  bool // the gateway assigns every channel number in turn (0..255); base "idle" only
 }
 
 type Census struct {
@@ -60,7 +61,12 @@ func c10Run(p c10Params) func() {
 			network = "tcp"
 		}
 		sock := fakesock.New(network)
-		gw := NewGateway(sock, 7)
+		ch := uint8(7)
+		if p.everyCh {
+			ch = uint8(mc.Choose(256, mc.Free))
+			mc.Log(Note(fmt.Sprintf("assigned channel %d", ch)))
+		}
+		gw := NewGateway(sock, ch)
 		if p.discFail {
 			sock.FailSend = func(v knxnet.ServicePackable) error {
 				if _, ok := v.(*knxnet.DiscReq); ok {
@@ -225,6 +231,7 @@ func c10Oracle(p c10Params) func(tr *mc.Trace) []h.Violation {
 		firstCloseRet := mc.Duration(-1)
 		usableAtFirst := false
 		discReqs := 0
+		assigned := -1
 		inboundClosed := false
 		var census *Census
 		for _, e := range tr.Log {
@@ -260,10 +267,16 @@ func c10Oracle(p c10Params) func(tr *mc.Trace) []h.Violation {
 					}
 				}
 			case fakesock.Sent:
-				if _, ok := x.Svc.(*knxnet.DiscReq); ok {
+				if d, ok := x.Svc.(*knxnet.DiscReq); ok {
 					discReqs++
+					if assigned >= 0 && int(d.Channel) != assigned {
+						bad("disconnect-request-channel", "the disconnect request names channel %d; the gateway assigned channel %d", d.Channel, assigned)
+					}
 				}
 			case Note:
+				if strings.HasPrefix(string(x), "assigned channel ") {
+					fmt.Sscanf(string(x), "assigned channel %d", &assigned)
+				}
 				if x == "inbound closed" {
 					inboundClosed = true
 				}
@@ -424,6 +437,11 @@ func init() {
 	for _, base := range []string{"send", "inbound", "heartbeat"} {
 		pd := c10Params{base: base, closers: 1, reader: base != "inbound", instants: inst, discFail: true}
 		register("both", &h.Scenario{Name: fmt.Sprintf("C10-%s-disconnect-request-write-fails", base), Prop: "C10", P: 1, F: 0, D: 2, Run: c10Run(pd), Check: c10Oracle(pd)})
+	}
+	// every channel number a gateway can assign (0 is a legal one), UDP and TCP
+	for _, tcp := range []bool{false, true} {
+		pe := c10Params{base: "idle", closers: 1, reader: true, instants: []int{50}, tcp: tcp, everyCh: true}
+		register("both", &h.Scenario{Name: fmt.Sprintf("C10-idle-every-channel-number-tcp=%v", tcp), Prop: "C10", P: 0, F: 0, D: -1, Run: c10Run(pe), Check: c10Oracle(pe)})
 	}
 	pt := c10Params{base: "inbound", closers: 2, reader: true, instants: []int{0, 100}, tcp: true}
 	register("both", &h.Scenario{Name: "C10-tcp-inbound-2closers", Prop: "C10", P: 1, F: 0, D: 1, Run: c10Run(pt), Check: c10Oracle(pt)})
